@@ -510,6 +510,16 @@ func histParseStage(c *Ctx, d *Decl, kinds []string, firstUse string) string {
 			b.P.WriteHelp(&sink)
 			b.P.WriteManPage(&sink)
 		})
+	case "complete":
+		// an interactive program serves a completion request with the parser it then parses the entered line with
+		pi = safely(func() {
+			prev := b.P.CompletionHandler
+			b.P.CompletionHandler = func([]flags.Completion) {}
+			os.Setenv("GO_FLAGS_COMPLETION", "1")
+			b.P.ParseArgs(append(append([]string{}, args1...), "--"))
+			os.Unsetenv("GO_FLAGS_COMPLETION")
+			b.P.CompletionHandler = prev
+		})
 	default:
 		pi = safely(func() { b.P.ParseArgs(append([]string{}, args1...)) })
 	}
@@ -521,14 +531,21 @@ func histParseStage(c *Ctx, d *Decl, kinds []string, firstUse string) string {
 		return ""
 	}
 	// second use, generated on the mutated model
+	tgt := m.Cmd
+	if firstUse == "complete" && m.Kind == "none" {
+		// a completion request leaves nothing behind (no command was selected, nothing was set): the entered line
+		// may just as well stop above the command the completed line had reached
+		ch := m.Cmd.Chain()
+		tgt = ch[r.Intn(len(ch))]
+	}
 	var sc2 *Scenario
 	for try := 0; try < 4; try++ {
-		sc2 = GenScenario(r, d, &ScenCfg{MaxItems: 6, POcc: 40, PCluster: 8, PPos: 20, PCmd: 25, PTerm: 5, PQuoted: 0, SkipReq: true, Target: m.Cmd, Focus: m.Focus, FocusN: 1 + r.Intn(2)})
-		if sc2.Final == m.Cmd {
+		sc2 = GenScenario(r, d, &ScenCfg{MaxItems: 6, POcc: 40, PCluster: 8, PPos: 20, PCmd: 25, PTerm: 5, PQuoted: 0, SkipReq: true, Target: tgt, Focus: m.Focus, FocusN: 1 + r.Intn(2)})
+		if sc2.Final == tgt {
 			break
 		}
 	}
-	for _, cm := range m.Cmd.Chain() {
+	for _, cm := range tgt.Chain() {
 		if cm.Pos != nil {
 			for _, a := range cm.Pos.Args {
 				if cm.Pos.Required || a.Req != "" {
@@ -539,7 +556,7 @@ func histParseStage(c *Ctx, d *Decl, kinds []string, firstUse string) string {
 			}
 		}
 	}
-	if sc2.Final != m.Cmd {
+	if sc2.Final != tgt {
 		// the library never resets Active: a second vector that ends in another command than the first one is
 		// checked against required options of the stale chain - not a state-free observation
 		return ""
@@ -563,7 +580,7 @@ func histParseStage(c *Ctx, d *Decl, kinds []string, firstUse string) string {
 	for x := fresh.P.Command.Active; x != nil && len(active) < 64; x = x.Active {
 		active = append(active, x.Name)
 	}
-	if !eqStrs(active, chainNames(m.Cmd.Chain())) {
+	if !eqStrs(active, chainNames(tgt.Chain())) {
 		return ""
 	}
 	if firstUse == "parse" && len(args1) > len(m.Cmd.Chain())-1 && (strings.Contains(obsA, "error: flags.Error/required") || strings.Contains(obsB, "error: flags.Error/required")) {
